@@ -166,6 +166,11 @@ impl Prop for C09 {
         v.push(Scope::new(&format!("inv-sparse9-3x3-{}", k), "global invariant on all 3x3 grids with at most k non-blank cells over {-,|,+,/,\\,_,.,'}", move |f| {
             enumr::sparse(&sd[1..], 3, 3, k, &mut |g| f(Case::s(g)))
         }));
+        v.push(Scope::new("inv-overlapping-boxes", "global invariant on drawings whose top-level fragments have overlapping, non-nested bounding boxes (parallel diagonals with a short run or label between them, a box next to a diagonal)", |f| {
+            for d in shapes::overlapping_bbox_family() {
+                f(Case::s(d));
+            }
+        }));
         v.push(Scope::new("inv-nbhd2", "global invariant on every 2-character neighbourhood of the ASCII + unicode drawing alphabets", |f| {
             let mut a = shapes::sigma_ascii();
             a.extend(shapes::sigma_uni());
